@@ -237,7 +237,7 @@ def parse_function(st, head, fbody):
 
 
 # ----------------------------------------------------------------------------- C expression / statement parser
-TOK = re.compile(r"\s*(?:(\d+\.\d*|\d+)|([A-Za-z_]\w*)|(""|<=|>=|==|!=|&&|\|\||\+\+|--|\+=|-=|::|[-+*/%<>=!?:(){}\[\],;.&]))")
+TOK = re.compile(r"\s*(?:(\d+\.\d*|\d+)|([A-Za-z_]\w*)|(\"\"|<=|>=|==|!=|&&|\|\||\+\+|--|\+=|-=|::|[-+*/%<>=!?:(){}\[\],;.&]))")
 
 
 def tokenize(s):
